@@ -4,6 +4,7 @@ CONSTANTS
   RuleIds = {"r1", "r2"}
   Versions = {"1.0", "2.0"}
   ModeOf <- MCModeOf
+  RulesKeyedOnIdOnly = FALSE
   IdsIdentifyContent = TRUE
   InitScenarios = {"fresh", "haskey"}
   InitDocs <- DocsSmall
